@@ -23,6 +23,7 @@ func TestC20(t *testing.T) {
 		Filters: []string{"f0", "f1", "f2"}, Fmts: []string{"m0", "m1"}, Sinks: []string{"k0", "k1"},
 		Policies: []string{"", "", "AllowOverwrite"}, Malformed: 8, DupIDs: 12,
 	}
+	c20RemovalDuringReopen(run, r.Fork())
 	nh := run.N(8000, 400000)
 	for i := 0; i < nh && !run.Stop(); i++ {
 		cr := r.Fork()
